@@ -66,8 +66,18 @@ struct SimpleStringBuffer
     void setWriteLimit(size_t write_limit);
     void resetWriteLimit();
     bool reachedItsCapacity();
+#ifdef CPPUTEST_VERIF_HOOKS
+    /* conformance harness: fill position, write limit, and canary bytes placed right after the buffer
+     * (an overflow inside the detector object is invisible to AddressSanitizer) */
+    size_t verifFilled() const { return positions_filled_; }
+    size_t verifLimit() const { return write_limit_; }
+    bool verifCanaryIntact() const;
+#endif
 private:
     char buffer_[SIMPLE_STRING_BUFFER_LEN];
+#ifdef CPPUTEST_VERIF_HOOKS
+    char verif_canary_[16];
+#endif
     size_t positions_filled_;
     size_t write_limit_;
 };
@@ -90,6 +100,9 @@ public:
     void reportMemoryCorruptionFailure(MemoryLeakDetectorNode* node, const char* freeFile, size_t freeLineNumber, TestMemoryAllocator* freeAllocator, MemoryLeakFailure* reporter);
     void reportAllocationDeallocationMismatchFailure(MemoryLeakDetectorNode* node, const char* freeFile, size_t freeLineNumber, TestMemoryAllocator* freeAllocator, MemoryLeakFailure* reporter);
     char* toString();
+#ifdef CPPUTEST_VERIF_HOOKS
+    SimpleStringBuffer& verifBuffer() { return outputBuffer_; }
+#endif
 
 private:
     void addAllocationLocation(const char* allocationFile, size_t allocationLineNumber, size_t allocationSize, TestMemoryAllocator* allocator);
@@ -237,6 +250,9 @@ public:
     unsigned getCurrentAllocationNumber();
 
     SimpleMutex* getMutex(void);
+#ifdef CPPUTEST_VERIF_HOOKS
+    SimpleStringBuffer& verifBuffer() { return outputBuffer_.verifBuffer(); }
+#endif
 private:
     MemoryLeakFailure* reporter_;
     MemLeakPeriod current_period_;
